@@ -2,6 +2,18 @@
 
 package ed25519
 
-import "github.com/oasisprotocol/ed25519/internal/modm"
+import (
+	"github.com/oasisprotocol/ed25519/internal/ge25519"
+	"github.com/oasisprotocol/ed25519/internal/modm"
+)
 
 func vFreshLimb(name string) modm.Element { return modm.Element(vU32(name)) }
+
+// every limb of the point becomes a fresh unconstrained value
+func vClobberPoint(p *ge25519.Ge25519, name string) {
+	for i := range p.X() {
+		p.X()[i] = vU32(name + "x" + vItoa(i))
+		p.Y()[i] = vU32(name + "y" + vItoa(i))
+		p.Z()[i] = vU32(name + "z" + vItoa(i))
+	}
+}
